@@ -1196,7 +1196,11 @@ func (w *world) conclude() {
 			}
 			return keysOf(m)
 		}
-		switch x := r.Intn(10); {
+		x := r.Intn(10)
+		if w.directed != "" {
+			x = 4 + r.Intn(6) // directed scenarios: withdraw while the stream stays open
+		}
+		switch {
 		case x < 4 || s.acct == nil || s.node:
 			steps = append(steps, td{kind: "close", s: s})
 		case x < 6:
